@@ -863,6 +863,86 @@ def check_shared(i):
     return None, 'fine'
 
 
+def schematic_subst_cases():
+    """Patterns at the schematic type ?'a instantiated with an Inst whose type instantiation is empty (it has to be found from
+    the assigned terms), partial, or complete.  -> list of (name, pattern, function building a fresh Inst, complete TyInst)"""
+    from kernel.type import STVar, TVar, TFun, BoolType, TyInst
+    from kernel.term import Var, SVar, Eq, Abs, Bound, Comb, Inst, Const
+    SA, A, B = STVar('a'), TVar('a'), TVar('b')
+    sx, sy = SVar('x', SA), SVar('y', SA)
+    sQ = SVar('Q', TFun(SA, BoolType))
+    c, d = Var('c', A), Var('d', B)
+    pats = [('?x = ?y', Eq(sx, sy)), ('%z. z = ?x', Abs('z', SA, Comb(Comb(Const('equals', TFun(SA, SA, BoolType)), Bound(0)), sx))), ('?Q ?x', Comb(sQ, sx)), ('(%z. ?Q z) ?x', Comb(Abs('z', SA, Comb(sQ, Bound(0))), sx)),
+            ('const f ?x', Comb(Const('ff', TFun(SA, SA)), sx))]
+    out = []
+    for pn, pat in pats:
+        for vn, val, T in (('c', c, A), ('d', d, B)):
+            out.append(('%s [x := %s]' % (pn, vn), pat, (lambda val=val: Inst(x=val)), TyInst(a=T)))
+    return out
+
+
+def check_schematic_subst(i):
+    name, pat, mk, ty = schematic_subst_cases()[i]
+    from kernel.term import Inst
+    inst1 = mk()
+    try:
+        r1 = pat.subst(inst1)
+    except Exception as e:
+        r1 = None
+    pre = mk()
+    pre.tyinst = ty
+    try:
+        ref = pat.subst(pre)
+    except Exception:
+        return None, 'reference rejected'
+    if r1 is None:
+        return None, 'rejected'
+    if ind_type(r1) is None:
+        return 'subst-illtyped', 'subst of %s, type instantiation to be inferred: the result %r is not well-typed' % (name, r1)
+    if export(r1) != export(ref):
+        return 'subst-schematic-types', 'subst of %s gives %r with an empty type instantiation but %r when the type instantiation is supplied' % (name, r1, ref)
+    try:
+        r2 = pat.subst(inst1)            # the same Inst object again: the answer must not depend on the first call
+    except Exception:
+        r2 = None
+    if r2 is None or export(r2) != export(r1):
+        return 'subst-history', 'subst of %s with the same Inst object gives %r the first time and %r the second time' % (name, r1, r2)
+    return None, 'fine'
+
+
+def order_cases():
+    """Pairs of terms of the same shape and names that differ only in types (of constants, variables, binders)."""
+    from kernel.type import TVar, TFun, BoolType, NatType, IntType
+    from kernel.term import Var, Const, Abs, Bound, Comb, Eq
+    A, B = TVar('a'), TVar('b')
+    mk = lambda T: [Const('zero', T), Comb(Const('f', TFun(T, T)), Const('zero', T)), Eq(Const('nil', T), Const('nil', T)), Abs('x', T, Bound(0)), Var('v', T),
+                    Comb(Var('g', TFun(T, BoolType)), Const('c', T)), Abs('x', T, Comb(Const('h', TFun(T, T)), Bound(0)))]
+    out = []
+    for T1, T2 in ((NatType, IntType), (A, B), (NatType, A), (TFun(A, A), TFun(A, B))):
+        for t1, t2 in zip(mk(T1), mk(T2)):
+            out.append((t1, t2))
+    return out
+
+
+def check_order(i):
+    from kernel import term_ord
+    t1, t2 = order_cases()[i]
+    for a, b in ((t1, t2), (t2, t1), (t1, t1)):
+        try:
+            c = term_ord.fast_compare(a, b)
+        except Exception as e:
+            return None, 'raised'
+        if (c == 0) != (a == b):
+            return 'order-equality', 'fast_compare(%r, %r) = %d although the terms are %s' % (a, b, c, 'equal' if a == b else 'different')
+    try:
+        c12, c21 = term_ord.fast_compare(t1, t2), term_ord.fast_compare(t2, t1)
+        if c12 != -c21:
+            return 'order-antisymmetry', 'fast_compare(%r, %r) = %d but the converse is %d' % (t1, t2, c12, c21)
+    except Exception:
+        pass
+    return None, 'fine'
+
+
 def under_binder():
     """%q. %w. k q w  (its body puts the substituted argument under the binder w)"""
     from kernel.type import TFun
@@ -900,6 +980,7 @@ def units(tier, seed):
     for lo in range(0, n, 25):
         us.append(('subst', tier, seed, lo, lo + 25))
     us.append(('shared', tier, seed))
+    us.append(('schematic', tier, seed))
     random.Random(seed).shuffle(us)
     return us
 
@@ -928,6 +1009,17 @@ def run_unit(u):
             out['samples'].append({'construction_script': scr[lo], 'operation': op, 'identities': 'symbolic'})
     elif u[0] == 'laws':
         run_laws(u, out, twin)
+    elif u[0] == 'schematic':
+        for part, n, fn in (('schem', len(schematic_subst_cases()), check_schematic_subst), ('order', len(order_cases()), check_order)):
+            for i in range(n):
+                out['evals'] += 1
+                out['keys'].add('%s|%d' % (part, i))
+                if twin:
+                    continue
+                kind, detail = fn(i)
+                if kind:
+                    out['cex'].append({'kind': kind, 'part': part, 'i': i, 'detail': detail})
+        out['samples'].append({'schematic_subst_case': schematic_subst_cases()[0][0]})
     elif u[0] == 'shared':
         for i in range(len(shared_cases())):
             out['evals'] += 1
@@ -964,6 +1056,9 @@ def replay(c):
         return replay_law(c)
     if k.startswith('shared-'):
         kind, detail = check_shared(c['i'])
+        return kind == k, detail
+    if c.get('part') in ('schem', 'order'):
+        kind, detail = (check_schematic_subst if c['part'] == 'schem' else check_order)(c['i'])
         return kind == k, detail
     terms = closed_family(2)
     kind, detail = check_subst_case(terms[c['i']], subst_cases()[c['case']])
